@@ -58,6 +58,7 @@ const xfrSecret = "so6ZGir4GPAqINNh9U5c3A=="
 const xfrBadSecret = "NoTCJU+DMqFWywaPyxSijrDEA/eC3nK0xi3AMEZuPVk="
 
 type xfrResult struct {
+	sent   [][]byte // the octets of each envelope as the sender wrote them (without the length prefix)
 	envs   []string // dataN | errId | errRcode | errSoa | errRead | errOther
 	reads  int
 	recs   []string
@@ -81,6 +82,7 @@ func runTransfer(qtype uint16, qid uint16, qser uint32, envs []xenv, tsig bool) 
 		q.SetTsig(xfrKeyName, dns.HmacSHA256, 300, now)
 	}
 	done := make(chan int, 1)
+	var sent [][]byte // filled by the sender before it writes; read after <-done
 	go func() {
 		// sender: read the query, then write the envelopes
 		sc := &dns.Conn{Conn: sv}
@@ -133,6 +135,7 @@ func runTransfer(qtype uint16, qid uint16, qser uint32, envs []xenv, tsig bool) 
 				}
 			}
 			frames = append(frames, append(putUint(nil, 2, uint64(len(out))), out...))
+			sent = append(sent, append([]byte{}, out...))
 			cuts = append(cuts, e.cutAt)
 		}
 		// reordering happens on the signed envelopes
@@ -190,6 +193,7 @@ loop:
 		}
 	}
 	res.reads = <-done
+	res.sent = sent
 	return res
 }
 
@@ -259,6 +263,21 @@ func c15Run(c *Ctx, stream string, qtype uint16, qid uint16, qser uint32, envs [
 	}
 	// number of messages consumed: the model's count; a trailing read error consumes no message
 	c.Op(stream, fmt.Sprintf("%s %s %s", op, pre, strings.Join(reads, " ")), strings.TrimSpace(fmt.Sprintf("%d %s", readsSeen(res, envs), got)), true)
+	// the same machines fed with the octets of the envelopes, decoded by the model
+	if len(res.sent) == len(envs) {
+		var wr []string
+		for i, e := range envs {
+			if e.cutAt > 0 {
+				wr = append(wr, "E")
+				break
+			}
+			wr = append(wr, hx(res.sent[i]))
+		}
+		if len(wr) == len(envs) && (len(envs) == 0 || envs[len(envs)-1].cutAt == 0) {
+			wr = append(wr, "E") // the sender closes after the last envelope
+		}
+		c.OpK(stream, fmt.Sprintf("%s.wire %s %s", op, pre, strings.Join(wr, " ")), strings.TrimSpace(fmt.Sprintf("%d %s", readsSeen(res, envs), got)), true, op+"-wire")
+	}
 	c.Pred(stream, "channel-closed", strings.Join(args, " "), res.closed, "open", "closed", true)
 	if valid {
 		var wantS []string
